@@ -431,6 +431,90 @@ def enum_subkeys(rng, docs, quick, rot=0):
     return items
 
 
+STRUCTURED = ("complements", "identities", "ext", "tax_id")
+
+
+def go_rematch(pairs):
+    """[(pattern text, string)] -> [True | False | None (Go's regexp refuses the pattern text)]"""
+    pairs = list(pairs)
+    outs = run_go(["c11 rematch x%s x%s" % (p.encode().hex(), s.encode("utf-8", "surrogatepass").hex()) for p, s in pairs]) if pairs else []
+    return [True if o.strip() == "1" else False if o.strip() == "0" else None for o in outs]
+
+
+def regex_shaped(c, docs, quick):
+    """Members that a regime or add-on validates with its OWN regular expression: the expression literals of the Go files
+    under regimes/<cc> and addons/<cc> (tools/lib/c11rx.py), and for every string member position (indices generalised,
+    per schema and country) of the documents of that country (examples and rich documents; by $regime, supplier country,
+    add-on prefix or directory name):
+      - an expression the PRESENT value satisfies (the one that may well govern the member): strings of the expression's
+        language with one / every position taken from outside the code alphabet where the expression offers it, and the
+        present value with one character replaced by a non-alphanumeric character the expression still allows;
+      - any other expression of the country, at the members of complements / identities / extensions / tax ids and of
+        the regime's own document types: one string of its language.
+    Every string is confirmed by Go's regexp. Go first; what the library accepts gets the schema's verdict.
+    -> ([(label, document)], coverage)"""
+    import c11rx
+    rng = c.rng
+    pats = c11rx.harvest(REPO)
+    ok = go_rematch([(p, "") for cc in sorted(pats) for p in pats[cc]])
+    it = iter(ok)
+    pats = {cc: [p for p in pats[cc] if next(it) is not None] for cc in sorted(pats)}
+    pos, seen = [], set()
+    for name, d in docs:
+        if not isinstance(d, dict):
+            continue
+        sup = d.get("supplier") if isinstance(d.get("supplier"), dict) else {}
+        tid = sup.get("tax_id") if isinstance(sup.get("tax_id"), dict) else {}
+        ccs = {str(d.get("$regime")), str(tid.get("country"))} | {str(a)[:2].upper() for a in (d.get("$addons") or [])}
+        ccs |= {x.upper() for x in re.findall(r"(?<![a-z0-9])([a-z]{2})(?![a-z0-9])", name.split(":", 1)[-1])}
+        ccs = sorted(x for x in ccs if pats.get(x))
+        if not ccs:
+            continue
+        sid = schema_of(name, d)
+        own_type = "/regimes/" in sid or "/addons/" in sid
+        for path, parent, key, val in leaves(d):
+            if not isinstance(val, str) or not val or path[-1] == "$schema" or key == "uuid" or len(val) > 200:
+                continue
+            gp = tuple("*" if isinstance(x, int) else x for x in path)
+            for cc in ccs:
+                if (sid, gp, cc) in seen:
+                    continue
+                seen.add((sid, gp, cc))
+                pos.append((name, d, path, val, cc, own_type or any(x in STRUCTURED for x in gp)))
+    present = [(p, val) for (_, _, _, val, cc, _) in pos for p in pats[cc]]
+    uniq = sorted(set(present))
+    match = dict(zip(uniq, go_rematch(uniq)))
+    cand = []                       # (position index, pattern, string, kind)
+    for i, (name, d, path, val, cc, structured) in enumerate(pos):
+        for p in pats[cc]:
+            if match.get((p, val)):
+                cand += [(i, p, s, "rx-sample") for s in c11rx.samples(rng, p, 2 if quick else 6)]
+                cand += [(i, p, s, "rx-neighbour") for s in c11rx.neighbours(rng, p, val, 24 if quick else 200)]
+            elif structured:
+                cand += [(i, p, s, "rx-sample") for s in c11rx.samples(rng, p, 1)[:1]]
+    uniq = sorted({(p, s) for _, p, s, _ in cand})
+    okm = dict(zip(uniq, go_rematch(uniq)))
+    items, nb = [], {}
+    for i, p, s, kind in cand:
+        name, d, path, val, cc, structured = pos[i]
+        if not okm.get((p, s)) or s == val:
+            continue
+        if kind == "rx-neighbour":
+            if nb.get((i, p), 0) >= (2 if quick else 12):
+                continue
+            nb[(i, p)] = nb.get((i, p), 0) + 1
+        m = copy.deepcopy(d)
+        pp = m
+        for x in path[:-1]:
+            pp = pp[x]
+        pp[path[-1]] = s
+        items.append(("regex-shaped:%s:%s" % (name, json.dumps([(kind, path, s, p)], ensure_ascii=False, default=str)[:400]), m))
+    cov = {"expressions": {cc: len(v) for cc, v in pats.items()}, "positions": len(pos),
+           "positions_whose_value_satisfies_an_expression": len({i for i, (_, _, _, val, cc, _) in enumerate(pos) if any(match.get((p, val)) for p in pats[cc])}),
+           "strings_confirmed_by_go_regexp": sum(1 for v in okm.values() if v), "strings_refused": sum(1 for v in okm.values() if not v)}
+    return items, cov
+
+
 def go_regimes():
     """[(own code, [alternative codes])] of every regime registered in the repository under test"""
     v = parse_wire(run_go(["c11 regimes"])[0])
@@ -1147,7 +1231,10 @@ def run(c):
     c.cov["extra_streams"] = {"regimes": len(regs), "alternative_codes": sum(len(a) for _, a in regs), "documents_without_regime": len(written)}
     drv = derived_regime(c.rng, regs, written, quick)
     json_out = {}
+    rxs, rxcov = regex_shaped(c, typed, quick)
+    c.cov["regex_shaped"] = rxcov
     for stream, op, its in (("subkeys", "run", enum_subkeys(c.rng, typed, quick, rot=c.seed)),
+                            ("regex-shaped", "run", rxs),
                             ("derived-regime", "run", drv),
                             ("derived-regime(go-api)", "runapi", drv)):
         a_items, a_pre = [], []
@@ -1190,7 +1277,11 @@ def run(c):
                      "of every registered type, with a sub-key appended (made up / key-like words of the Go source) - Go first, accepted ones judged; derived-regime: minimal invoice / order / delivery / payment, "
                      "the non-invoice examples, the rich documents with a supplier and one example invoice per regime directory, written without $regime, supplier tax country = every alternative code, the own code, "
                      "a country without regime and (minimal documents: all, others: three) regimes' own codes, through gobl.Parse and through `c11 runapi` (struct handed to gobl.Envelop without the UnmarshalJSON side effects; "
-                     "outputs equal to the JSON entry point's are judged once)")
+                     "outputs equal to the JSON entry point's are judged once); "
+                     "regex-shaped: the regular-expression literals of regimes/<cc> and addons/<cc> Go files; at every string member position (per schema and country) of that country's examples and rich documents "
+                     "whose present value satisfies an expression: strings of that expression's language with one / every position outside [A-Za-z0-9] where the expression offers it, and one-character replacements "
+                     "of the present value the expression still matches; at members of complements / identities / ext / tax_id and of regime document types: one string of every other expression of the country; "
+                     "all confirmed by Go's regexp - Go first, accepted ones judged")
     acc = sum(v for k, v in state["verdicts"].items() if k[0])
     if acc < 50 or not any(k[1] == "invalid" for k in state["verdicts"]):
         c.report("the sweep did not reach its interesting cases (accepted=%d, verdict classes=%s)" % (acc, list(state["verdicts"])), {"machinery": "generator"}, no_input=True)
